@@ -20,7 +20,7 @@ ASSUMPTIONS = [
     "real-valued parameters are covered on the finite catalogue + VERIF_SEED-indexed generic reals (cond<=1e3) only",
     "sizes bounded: D,Dx,Dy<=3 (thorough 4), R<=3 (thorough 4)",
 ]
-BOUNDS = {"quick": dict(D=[1, 2, 3], R=[1, 2, 3]), "thorough": dict(D=[1, 2, 3, 4], R=[1, 2, 3, 4])}
+BOUNDS = {"quick": dict(D=[1, 2, 3], R=[1, 2, 3, 4]), "thorough": dict(D=[1, 2, 3, 4], R=[1, 2, 3, 4])}
 BUDGET = {"quick": 600, "thorough": 3600}
 
 
@@ -52,18 +52,24 @@ def run_pdf(shard, ctx):
             tag = ("c13", kind, D, R)
             Sp = objs.spd_batch(D, R, vi, seed, tag + ("p",), diag=diag)
             mp_ = objs.vec_batch(D, R, vi, seed, tag + ("p",))
-            for prep, mkp in objs.pdf_variants(kind, Sp, mp_, which=("fresh", "sliced_neg", "updated", "Sigma+Lambda+lndet") if vi == 0 else ("fresh",)):
+            for prep, mkp, mu_e, Sig_e in objs.pdf_variants(kind, Sp, mp_, which=("fresh", "sliced_neg", "updated", "Sigma+Lambda+lndet", "conditioned", "prod_linear", "prod_constant") if vi == 0 else ("fresh",)):
               if ctx.case(dict(what="entropy", R=R, vi=vi, prep=prep)):
                 with ctx.guard("entropy.call", dict(prep=prep)):
                     p = mkp()
                     H = np.asarray(p.entropy())
-                    ctx.close("entropy.value", H, np.array([rm.entropy(Sp[r]) for r in range(R)]))
+                    ctx.close("entropy.value", H, np.array([rm.entropy(Sig_e[r]) for r in range(R)]), facts=dict(prep=prep))
                     if D <= 2:
                         Hq = np.zeros(R)
                         for r in range(R):
-                            xs, ws = rm.gauss_hermite(mp_[r], Sp[r], 6)
+                            xs, ws = rm.gauss_hermite(mu_e[r], Sig_e[r], 6)
                             Hq[r] = -np.sum(ws * np.asarray(p.evaluate_ln(J(xs)))[r])
-                        ctx.close("entropy.minus_E_ln_p", H, Hq)
+                        ctx.close("entropy.minus_E_ln_p", H, Hq, facts=dict(prep=prep))
+                    # KL against an independently built density with the same components is zero; against a fixed q it is the closed form
+                    same = objs.mk_pdf("GaussianPDF", Sig_e, mu_e)
+                    ctx.close("kl.history_self_zero", np.asarray(p.kl_divergence(same)), np.zeros(R), tol=1e-9, facts=dict(prep=prep))
+                    ctx.close("kl.history_self_zero", np.asarray(same.kl_divergence(p)), np.zeros(R), tol=1e-9, facts=dict(prep=prep))
+                    q1 = objs.mk_pdf("GaussianPDF", objs.spd_batch(D, 1, vi + 3, seed, tag + ("q1",)), objs.vec_batch(D, 1, vi + 3, seed, tag + ("q1",)))
+                    ctx.close("kl.history_value", np.asarray(p.kl_divergence(q1)), np.array([rm.kl(mu_e[r], Sig_e[r], np.asarray(q1.mu)[0], np.asarray(q1.Sigma)[0]) for r in range(R)]), facts=dict(prep=prep))
                 if vi == 0 and R == 2:
                     ctx.sample(dict(shard=shard["id"], what="entropy", Sigma=Sp, mu=mp_))
             for lay in ("RR", "1R", "R1"):
